@@ -3,7 +3,11 @@
 Stream c11.sched: harness/cmd/c11 checks + compiles every seeded multi-method program in process under
 MethodCheckConcurrencyLimit in {1 (baseline), 2, 4, 16, 100} x GOMAXPROCS in {1, 2, 16} x repetitions (odd
 repetitions with runtime.Gosched load); sorted diagnostics and, for accepted programs, stdout / error class of
-the compiled bytecode must equal the baseline.  Stream c11.race (thorough): the same harness built with
+the compiled bytecode must equal the baseline.  Family "many bodies x shared fresh names" (ids f<i>, corpus files
+fresh_*): hundreds of bodies, groups of k consecutive bodies first-use the same n fresh local names / symbol literals in
+rotated order; every run of such a program happens in a FRESH child process of the harness (the symbol table is
+process-global, a name is fresh only once per process), limits {100, 16, 1} x GOMAXPROCS {default, 4} x repetitions
+against the limit-1 / GOMAXPROCS-1 child.  Stream c11.race (thorough): the same harness built with
 -race; any data-race report whose stacks touch elk packages gates (key = file:line of the two accesses).
 """
 import os
@@ -14,12 +18,12 @@ SCHED = "c11.sched"
 RACE = "c11.race"
 
 
-def run_harness(ctx, exe, n, reps, seed, tag, corpus_list, env_extra=None, timeout=6000, extra=""):
+def run_harness(ctx, exe, n, reps, seed, tag, corpus_list, env_extra=None, timeout=6000, extra="", fam=0):
     """runs the harness, restarting after a crash. -> (lines {id: (desc, observed)}, crashes [(id, stderr)], all stderr)"""
     dump = os.path.join(ctx.workdir, tag + "_dump")
     lines, crashes, errs = {}, [], []
     start = 0
-    total = n + len(corpus_list)
+    total = n + len(corpus_list) + fam
     for _attempt in range(12):
         lst = os.path.join(ctx.workdir, tag + "_corpus.txt")
         with open(lst, "w") as f:
@@ -126,7 +130,19 @@ def run(ctx):
         "gives the same result (induction over event lists). NOT proved: that a real method-body check is such a task (its actions and "
         "result independent of ids, cache hits and other bodies' writes) - this hypothesis is exactly what a regression breaks and is "
         "only tested by c11.sched (real checker+compiler in process at limits 1/2/4/16/100 x GOMAXPROCS 1/2/16 x repetitions with "
-        "Gosched load; sorted diagnostics and program stdout must equal the limit-1 run). The Go scheduler is perturbed, not "
+        "Gosched load; sorted diagnostics and program stdout must equal the limit-1 run). The confluence theorem now takes the "
+        "atomicity of symbol interning as a NAMED hypothesis: a micro-step machine splits SymbolTable.Add into lookup and blind "
+        "insert (what a read-locked fast path without re-check under the write lock does); for intern_atomic schedules (insert "
+        "immediately after the same task's lookup = one critical section) it coincides with the atomic model "
+        "(C11_intern_atomic_refines, C11_confluence_intern_atomic), and C11_nonatomic_intern_refuted exhibits a schedule of the "
+        "split machine in which two tasks obtain different ids for one name and the table holds the name twice. Whether the real "
+        "Add is atomic is not proved but tested: the program family 'many bodies x shared fresh names' (hundreds of bodies, groups "
+        "of k bodies first-using the same n fresh local names / symbol literals in rotated order, own names as write pressure; "
+        "holders module/class/top level; with and without injected type errors) is checked in FRESH child processes (the symbol "
+        "table is process-global, so in-process repetitions - and all runs after the in-process baseline of the older programs - "
+        "find every name already interned and cannot observe interning at all) at limits 100/16/1 x GOMAXPROCS default/4 against "
+        "the limit-1 child. This is an implementation-level schedule-sampling oracle, not an enumeration: a window that needs a "
+        "rarer interleaving than ~300 bodies x ~20 shared names provoke can be missed. The Go scheduler is perturbed, not "
         "controlled: there is no hook inside concurrent.Foreach, so interleavings are sampled, not enumerated. Data-race freedom in "
         "the Go memory model is outside the Gallina model; the thorough tier runs the same stream under the race detector. Macro "
         "bodies (checkMacros uses the same Foreach) are not generated. The native Go back end's output under different schedules is "
@@ -135,28 +151,39 @@ def run(ctx):
         "Go runtime scheduler / GOMAXPROCS / runtime.Gosched as the only source of interleavings (sampled, not enumerated)",
         "Go race detector (thorough tier) for the data-race clause",
         "harness/cmd/c11 program generator; the limit-1, GOMAXPROCS-1 run as the reference",
+        "fresh-process runs: os/exec of the harness binary itself, outcome passed back as one quoted line",
     ]
     ctx.run_proof_gate()
     h = vlib.build_harness("c11")
     corpus = [os.path.join(vlib.ROOT, l.strip()) for l in open(os.path.join(vlib.ROOT, "corpus", "C11.sched.txt")) if l.strip() and not l.startswith("#")]
     n, reps = ctx.n(40, 500), ctx.n(1, 2)
-    lines, crashes, err, dump = run_harness(ctx, h, n, reps, ctx.sseed(SCHED), "sched", corpus)
+    fam, freps = ctx.n(4, 40), ctx.n(1, 3)
+    lines, crashes, err, dump = run_harness(ctx, h, n, reps, ctx.sseed(SCHED), "sched", corpus, extra=",fam=%d,freps=%d" % (fam, freps), fam=fam)
     evaluations, dist = report(ctx, SCHED, lines, crashes, dump)
-    if len(lines) + len(crashes) < n + len(corpus):
-        ctx.broke("correspondence %s: only %d of %d programs were evaluated" % (SCHED, len(lines), n + len(corpus)), err[-2000:])
+    if len(lines) + len(crashes) < n + len(corpus) + fam:
+        ctx.broke("correspondence %s: only %d of %d programs were evaluated" % (SCHED, len(lines), n + len(corpus) + fam), err[-2000:])
+    nfam = len([k for k, v in lines.items() if k.startswith("f") or v[0].startswith("corpus fresh_")])
+    if nfam < fam:
+        ctx.broke("correspondence %s: only %d of %d shared-fresh-names programs were evaluated" % (SCHED, nfam, fam), err[-2000:])
     ctx.stream(SCHED, evaluations, len(lines),
                "seeded programs of 4-14 top-level methods calling each other along a random acyclic order (forward and backward "
                "references), bodies with locals, closures, loops, early returns, symbol literals; every second program has type "
                "errors injected into ~40% of its bodies (bad initialiser, undefined method, wrong argument type, unknown method on "
                "Int); evaluation = one check+compile(+run) of a program at one (limit, GOMAXPROCS, repetition) setting compared "
-               "with the limit-1 run; non-trivial = distinct program",
-               [{"program": k, "descriptor": v[0], "observed": v[1][:120]} for k, v in list(lines.items())[:4]],
-               dict(dist, programs=len(lines), limits=[1, 2, 4, 16, 100], gomaxprocs=[1, 2, 16], repetitions=reps))
+               "with the limit-1 run; PLUS the family 'many bodies x shared fresh names': 240-420 (thorough: up to 900) independent "
+               "bodies in a module / class / at top level, groups of 2-6 consecutive bodies first-use the same 8-24 fresh local "
+               "names and/or symbol literals in rotated order plus 0-6 names of their own, every fourth program with injected "
+               "type errors; Int bodies are summed, symbol bodies of one group compared with == at run time; each evaluation of "
+               "a family program (and of the corpus files fresh_*) is a FRESH child process (limits 100/16/1 x GOMAXPROCS "
+               "default/4 x repetitions, compared with the limit-1 GOMAXPROCS-1 child); non-trivial = distinct program",
+               [{"program": k, "descriptor": v[0], "observed": v[1][:120]} for k, v in (list(lines.items())[:3] + [kv for kv in lines.items() if kv[0].startswith("f")][:2])],
+               dict(dist, programs=len(lines), limits=[1, 2, 4, 16, 100], gomaxprocs=[1, 2, 16], repetitions=reps,
+                    fresh_process_programs=nfam, fresh_limits=[100, 16, 1], fresh_gomaxprocs=["default", 4], fresh_repetitions=freps))
     if not ctx.quick():
         hr = vlib.build_harness("c11", race=True)
         nr = 60
         lines_r, crashes_r, err_r, dump_r = run_harness(ctx, hr, nr, 1, ctx.sseed(RACE), "race", corpus,
-                                                       env_extra={"GORACE": "halt_on_error=0 exitcode=0 history_size=3"}, timeout=12000, extra=",norun=1")
+                                                       env_extra={"GORACE": "halt_on_error=0 exitcode=0 history_size=3"}, timeout=12000, extra=",norun=1,fam=2,freps=1", fam=2)
         ev_r, dist_r = report(ctx, RACE, lines_r, [c for c in crashes_r if "DATA RACE" not in c[1]], dump_r)
         reps_ = race_reports(err_r)
         seen = {}
